@@ -114,6 +114,15 @@ fixed_degree_isogeny(theta_chain_t *isog,
         length = ibz_bitsize(&QUATALG_PINFTY.p) + 15 - ibz_bitsize(u);
     }
 
+#ifdef SQISIGN_SQISIGN2D_WEST_AC24_VERIF
+    /* H3s: small, bitsize(u), length, strategies row, ec_dbl_iter count */
+    verif_trace("fixed_degree",
+                small,
+                u_bitsize,
+                length,
+                TORSION_PLUS_EVEN_POWER - length,
+                TORSION_PLUS_EVEN_POWER - length - 2);
+#endif
     // var init
     ibz_init(&two_pow);
     ibz_init(&tmp);
@@ -1183,6 +1192,10 @@ dim2id2iso_ideal_to_isogeny_clapotis(theta_chain_t *isog,
 
     assert(ibz_get(u) % 2 == 1);
 
+#ifdef SQISIGN_SQISIGN2D_WEST_AC24_VERIF
+    /* H3s: exp_gcd, chain length exp, strategies row */
+    verif_trace("clapotis", exp_gcd, exp, TORSION_PLUS_EVEN_POWER - exp + 2, 0, 0);
+#endif
     // t=tic();
     theta_chain_comput_strategy(
         isog, exp, &E01, &T1, &T2, &T1m2, strategies[TORSION_PLUS_EVEN_POWER - exp + 2], 0);
